@@ -5,7 +5,7 @@ import ast, copy
 from translate import pylite as P
 
 PROPERTIES = ["C10"]
-OUTPUTS = ["FailureGen.v", "SendGen.v"]
+OUTPUTS = ["FailureGen.v", "SendGen.v", "CalleeGen.v"]
 
 CMPNAME = {ast.Gt: "CmpGt", ast.GtE: "CmpGe", ast.Lt: "CmpLt", ast.LtE: "CmpLe", ast.Eq: "CmpEq", ast.NotEq: "CmpNe"}
 
@@ -281,6 +281,226 @@ def state_flow(gs, mod):
     return default_tb, thr, h, t, mk
 
 
+STATE_PRELUDE = """
+(* ---- what FailureSlicer.getStateToCopy reads from the Failure, and what it returns *)
+Definition text := list Z.      (* a Python str: code points *)
+
+Record exc := {
+  e_type : text;                 (* reflect.qual(obj.type) *)
+  e_str : res text;              (* str(obj.value): an exception class may make it raise *)
+  e_fallback : text;             (* what reflect.safe_str(obj.value) returns when str() raises *)
+  e_stack : text;                (* obj.getTraceback() *)
+  e_parents : list text          (* obj.parents *)
+}.
+
+Record fstate := { s_type : list Z; s_value : list Z; s_traceback : list Z; s_parents : list (list Z) }.
+
+(* the text -> bytes step of truncate (error handler read from the source): "strict" raises for lone surrogates,
+   "backslashreplace" escapes them *)
+Definition encode_text (t : text) : res (list Z) :=
+  match text_encode_errors with
+  | Strict => if forallb scalarb t then Ok (utf8 t) else Exc "UnicodeEncodeError"%string
+  | BackslashReplace => Ok (utf8 (escape t))
+  end.
+
+(* six.ensure_binary(truncate(s, limit)) for a str s / for bytes b *)
+Definition trunc_field (t : text) (limit : Z) : res (list Z) :=
+  match encode_text t with
+  | Exc e => Exc e
+  | Ok b => truncate b limit
+  end.
+
+Definition trunc_bytes (b : list Z) (limit : Z) : res (list Z) := truncate b limit.
+
+Definition sbind {A B} (r : res A) (f : A -> res B) : res B := match r with Ok x => f x | Exc t => Exc t end.
+
+Fixpoint map_res {A B} (f : A -> res B) (l : list A) : res (list B) :=
+  match l with
+  | [] => Ok []
+  | x :: r => match f x with
+              | Exc e => Exc e
+              | Ok y => match map_res f r with Exc e => Exc e | Ok ys => Ok (y :: ys) end
+              end
+  end.
+
+(* str(obj.value) / reflect.safe_str(obj.value) *)
+Definition render_str (e : exc) : res text := e_str e.
+Definition render_safe (e : exc) : res text := Ok (match e_str e with Ok v => v | Exc _ => e_fallback e end).
+"""
+
+
+def gen_get_state(gs, mod, consts):
+    """FailureSlicer.getStateToCopy, executed symbolically statement by statement into ONE Gallina term.
+
+    `state` is tracked as a map key -> (Gallina variable, 'text' | 'bytes'); every assignment to state[k] introduces a new
+    variable in source order, so reordering statements, truncating a field twice, dropping a truncation, eliding after
+    truncating ... all change the generated definition (and the theorems are re-checked against it).
+    Taken as given (python3 / Twisted facts, stated in the file): obj.value is not itself a Failure and obj.type is a class, so
+    of the three-way test at the top the last branch runs, and the inner `isinstance(obj.type, str)` test is false.
+    consts: the named constants emitted earlier; every literal met here must be one of them (single source of truth)."""
+    lines = []
+    env = {}            # state key -> (var, kind)
+    loc = {}            # local name -> (var, kind)     (stack, parents)
+    counter = [0]
+
+    def fresh(base):
+        counter[0] += 1
+        return "%s%d" % (base, counter[0])
+
+    def lit(n, name):
+        need(consts.get(name) == n, "getStateToCopy: the literal %r is not the constant %s = %r read earlier" % (n, name, consts.get(name)))
+        return name
+
+    def key_of(t):
+        need(isinstance(t, ast.Subscript) and U(t.value) == "state" and isinstance(t.slice, ast.Constant) and t.slice.value in
+             ("type", "value", "traceback", "parents"), "getStateToCopy: assignment to " + U(t))
+        return t.slice.value
+
+    def trunc_call(v):
+        """six.ensure_binary(truncate(X, N)) -> (X node, N)"""
+        if isinstance(v, ast.Call) and U(v.func) == "six.ensure_binary" and len(v.args) == 1 and not v.keywords:
+            c = v.args[0]
+            if isinstance(c, ast.Call) and U(c.func) == "truncate" and len(c.args) == 2 and not c.keywords and \
+                    isinstance(c.args[1], ast.Constant) and isinstance(c.args[1].value, int):
+                return c.args[0], c.args[1].value
+        return None
+
+    def do(st):
+        t = U(st)
+        if isinstance(st, ast.Expr) and isinstance(st.value, ast.Constant):
+            return
+        if t == "state = {}":
+            need(not env, "getStateToCopy: `state = {}` is not the first statement")
+            return
+        if isinstance(st, ast.If) and U(st.test) == "isinstance(obj.value, failure.Failure)":
+            need(len(st.orelse) == 1 and isinstance(st.orelse[0], ast.If) and U(st.orelse[0].test) == "isinstance(obj.type, str)"
+                 and st.orelse[0].orelse, "getStateToCopy: the three-way test on obj.value / obj.type changed")
+            for x in st.orelse[0].orelse:
+                do(x)
+            return
+        if isinstance(st, ast.If) and U(st.test) == "broker.unsafeTracebacks":
+            # both branches must end with state['traceback'] bound to text; join with `if unsafe`
+            def branch(stmts):
+                val = None
+                l2 = {}
+                for x in stmts:
+                    tx = U(x)
+                    if isinstance(x, ast.If) and U(x.test) == "isinstance(obj.type, str)" and x.orelse:
+                        need([U(y) for y in x.orelse] == ["stack = obj.getTraceback()"], "getStateToCopy: traceback source changed: " + tx[:80])
+                        l2["stack"] = "(e_stack e)"
+                    elif tx == "stack = obj.getTraceback()":
+                        l2["stack"] = "(e_stack e)"
+                    elif isinstance(x, ast.Assign) and len(x.targets) == 1 and key_of(x.targets[0]) == "traceback":
+                        if isinstance(x.value, ast.Name) and x.value.id in l2:
+                            val = l2[x.value.id]
+                        elif isinstance(x.value, ast.Constant) and isinstance(x.value.value, str):
+                            need([ord(c) for c in x.value.value] == consts["default_traceback"], "getStateToCopy: default traceback text differs")
+                            val = "default_traceback"
+                        elif U(x.value) == "obj.getTraceback()":
+                            val = "(e_stack e)"
+                        else:
+                            raise P.Untranslatable("getStateToCopy: traceback value " + tx[:80])
+                    else:
+                        raise P.Untranslatable("getStateToCopy: statement in the unsafeTracebacks test: " + tx[:80])
+                need(val is not None, "getStateToCopy: a branch of the unsafeTracebacks test leaves state['traceback'] unset")
+                return val
+            a, b = branch(st.body), branch(st.orelse)
+            v = fresh("tb")
+            lines.append("  let %s := (if unsafe then %s else %s) in" % (v, a, b))
+            env["traceback"] = (v, "text")
+            return
+        if isinstance(st, ast.If) and isinstance(st.test, ast.Compare) and U(st.test.left).startswith("len(state["):
+            thr, h, tl, mk = parse_elision(st, "state['traceback']")
+            need("traceback" in env and env["traceback"][1] == "text", "getStateToCopy: the traceback is elided before it exists / after it was encoded")
+            need([ord(c) for c in mk] == consts["elide_marker"], "elision marker differs")
+            src = env["traceback"][0]
+            v = fresh("tb")
+            lines.append("  let %s := (if Z.of_nat (List.length %s) >? %s then py_slice %s None (Some %s) ++ elide_marker ++ py_slice %s (Some (- %s)) None else %s) in"
+                         % (v, src, lit(thr, "elide_threshold"), src, lit(h, "elide_head"), src, lit(tl, "elide_tail"), src))
+            env["traceback"] = (v, "text")
+            return
+        if isinstance(st, ast.Assign) and len(st.targets) == 1 and U(st.targets[0]) == "state['traceback']" and isinstance(st.value, ast.Call) \
+                and isinstance(st.value.func, ast.Name) and st.value.func.id != "truncate" and [U(a) for a in st.value.args] == ["state['traceback']"] \
+                and not st.value.keywords:
+            # form (B) of state_flow (its docstring gives the equivalence): FIELD = g(FIELD) with g a module-level function
+            # `if len(p) > T: p = p[:H] + MARK + p[-K:]; return p`
+            g = [n for n in mod.body if isinstance(n, ast.FunctionDef) and n.name == st.value.func.id]
+            others = [n for n in ast.walk(mod) if isinstance(n, (ast.FunctionDef, ast.ClassDef)) and n.name == st.value.func.id]
+            stores = [n for n in ast.walk(mod) if isinstance(n, ast.Name) and n.id == st.value.func.id and isinstance(n.ctx, (ast.Store, ast.Del))]
+            need(len(g) == 1 and len(others) == 1 and not stores and not g[0].decorator_list, "helper %s is not a plain module-level function defined once" % st.value.func.id)
+            a = g[0].args
+            need(len(a.args) == 1 and not (a.vararg or a.kwarg or a.kwonlyargs or a.posonlyargs or a.defaults), "helper signature")
+            pn = a.args[0].arg
+            hb = [x for x in g[0].body if not (isinstance(x, ast.Expr) and isinstance(x.value, ast.Constant))]
+            need(len(hb) == 2 and isinstance(hb[1], ast.Return) and U(hb[1].value) == pn, "helper %s is not `if ...: p = ...; return p`" % g[0].name)
+            thr, h, tl, mk = parse_elision(hb[0], pn)
+            need("traceback" in env and env["traceback"][1] == "text", "getStateToCopy: the traceback is elided before it exists / after it was encoded")
+            need([ord(c) for c in mk] == consts["elide_marker"], "elision marker differs")
+            src = env["traceback"][0]
+            v = fresh("tb")
+            lines.append("  let %s := (if Z.of_nat (List.length %s) >? %s then py_slice %s None (Some %s) ++ elide_marker ++ py_slice %s (Some (- %s)) None else %s) in"
+                         % (v, src, lit(thr, "elide_threshold"), src, lit(h, "elide_head"), src, lit(tl, "elide_tail"), src))
+            env["traceback"] = (v, "text")
+            return
+        if isinstance(st, ast.Assign) and len(st.targets) == 1 and isinstance(st.targets[0], ast.Subscript) and U(st.targets[0].value) == "state":
+            k = key_of(st.targets[0])
+            tc = trunc_call(st.value)
+            if tc is not None:
+                srcn, n = tc
+                need(U(srcn) == "state[%r]" % k and k in env, "getStateToCopy: truncate(%s) assigned to state[%r]" % (U(srcn), k))
+                var, kind = env[k]
+                v = fresh({"type": "ty", "value": "va", "traceback": "tb"}[k])
+                lines.append("  sbind (%s %s %s) (fun %s =>" % ("trunc_field" if kind == "text" else "trunc_bytes", var, lit(n, "trunc_limit_" + k), v))
+                closers.append(")")
+                env[k] = (v, "bytes")
+                return
+            if k == "value" and U(st.value) in ("reflect.safe_str(obj.value)", "str(obj.value)"):
+                v = fresh("va")
+                lines.append("  sbind (%s e) (fun %s =>" % ("render_safe" if U(st.value).startswith("reflect") else "render_str", v))
+                closers.append(")")
+                env[k] = (v, "text")
+                return
+            if k == "type" and U(st.value) == "reflect.qual(obj.type)":
+                v = fresh("ty")
+                lines.append("  let %s := e_type e in" % v)
+                env[k] = (v, "text")
+                return
+            if k == "parents" and isinstance(st.value, ast.Name) and st.value.id in loc:
+                env[k] = loc[st.value.id]
+                return
+            raise P.Untranslatable("getStateToCopy: unexpected assignment " + t[:100])
+        if t == "parents = obj.parents[:]":
+            loc["parents"] = ("(e_parents e)", "textlist")
+            return
+        if isinstance(st, ast.For) and U(st.target) == "(i, value)" and U(st.iter) == "enumerate(parents)" and not st.orelse:
+            need(len(st.body) == 1 and isinstance(st.body[0], ast.Assign) and U(st.body[0].targets[0]) == "parents[i]", "parents loop body changed")
+            tc = trunc_call(st.body[0].value)
+            need(tc is not None and U(tc[0]) == "value" and loc.get("parents", (None, None))[1] == "textlist", "parents loop: " + U(st.body[0])[:100])
+            v = fresh("ps")
+            lines.append("  sbind (map_res (fun p => trunc_field p %s) %s) (fun %s =>" % (lit(tc[1], "trunc_limit_parents"), loc["parents"][0], v))
+            closers.append(")")
+            loc["parents"] = (v, "byteslist")
+            return
+        if t == "return state":
+            need(sorted(env) == ["parents", "traceback", "type", "value"], "getStateToCopy returns a state with keys %s" % sorted(env))
+            for k in ("type", "value", "traceback"):
+                need(env[k][1] == "bytes", "getStateToCopy returns state[%r] without encoding / truncating it" % k)
+            need(env["parents"][1] == "byteslist", "getStateToCopy returns the parents without encoding / truncating them")
+            lines.append("  Ok {| s_type := %s; s_value := %s; s_traceback := %s; s_parents := %s |}"
+                         % (env["type"][0], env["value"][0], env["traceback"][0], env["parents"][0]))
+            done.append(True)
+            return
+        raise P.Untranslatable("getStateToCopy: unexpected statement " + t[:100])
+
+    closers, done = [], []
+    for st in gs.body:
+        need(not done, "getStateToCopy: statements after `return state`")
+        do(st)
+    need(done, "getStateToCopy does not end in `return state`")
+    return ("(* FailureSlicer.getStateToCopy, statement by statement (symbolic execution of the source order) *)\n"
+            "Definition get_state_src (unsafe : bool) (e : exc) : res fstate :=\n" + "\n".join(lines) + "".join(closers) + ".")
+
+
 def cmp_fact(fn, test_prefix, left, right, what):
     """the comparison `left OP right` inside the `if` (or BoolOp) whose text starts with test_prefix and whose body raises"""
     hits = []
@@ -325,6 +545,11 @@ def gen_failure():
     out.append("Definition elide_head : Z := %d." % h)
     out.append("Definition elide_tail : Z := %d." % t)
     out.append("Definition elide_marker : list Z := %s.   (* %r *)" % (zlist([ord(c) for c in mark]), mark))
+    out.append(STATE_PRELUDE)
+    consts = {"trunc_limit_" + k: cs[k] for k in cs}
+    consts.update(default_traceback=[ord(c) for c in default_tb], elide_threshold=thr, elide_head=h, elide_tail=t,
+                  elide_marker=[ord(c) for c in mark])
+    out.append(gen_get_state(gs, mod, consts))
     # the receiving side: what "ByteStringConstraint(n)" enforces
     cm = P.load("constraint.py")
     out.append("Inductive cmpop := CmpGt | CmpGe | CmpLt | CmpLe | CmpEq | CmpNe.")
@@ -652,5 +877,239 @@ def gen_send():
     return "\n\n".join(out) + "\n"
 
 
+# ---------------------------------------------------------------------------------------------- the callee's answer-or-error path
+CALLEE_PRELUDE = """
+(* statements of Broker.callFailed *)
+Inductive cstmt :=
+| CIfDelivery (b : list cstmt)      (* if delivery: *)
+| CIfLogLocal (b : list cstmt)      (* if (self.tub and self.tub.logLocalFailures) or not self.tub: *)
+| CLogFailure                       (* delivery.logFailure(f) *)
+| CRenderLog                        (* a log call whose text is formatted eagerly from the failure (str, format of f.value ...) *)
+| CLog                              (* a log call that renders nothing of the failure or the delivery *)
+| CIfReq (b : list cstmt)           (* if reqID != 0: *)
+| CAssertActive                     (* assert self.activeLocalCalls[reqID] *)
+| CSendError                        (* self.send(call.ErrorSlicer(reqID, f)) *)
+| CDelActive.                       (* del self.activeLocalCalls[reqID] *)
+
+(* statements of Broker._callFinished *)
+Inductive fstmt :=
+| FIfOneWayReturn                   (* if reqID == 0: return *)
+| FLocal                            (* assignment to a local from delivery / a constant *)
+| FAssertActive                     (* assert self.activeLocalCalls[reqID] *)
+| FIfSchema (b : list fstmt)        (* if methodSchema: *)
+| FCheckResults                     (* try: methodSchema.checkResults(res, False) except Violation: prependLocation; raise *)
+| FSendAnswerGuarded                (* try: self.send(answer) except: log *)
+| FSendAnswer                       (* self.send(answer), unguarded *)
+| FRenderLog
+| FLog
+| FDelActive.                       (* del self.activeLocalCalls[reqID] *)
+
+(* the Deferred chain that Broker.doNextCall attaches to the delivery's ready_deferred, in source order *)
+Inductive cfun := KReady | KDoCall | KFinished | KFailed | KLogErr.
+Inductive link := LBoth (f : cfun) | LCallback (f : cfun) | LErrback (f : cfun).
+
+(* statements of CallUnslicer.reportViolation *)
+Inductive rstmt :=
+| RIfAbortReturn                    (* if f.value.args[0] == "ABORT received": return f *)
+| RIfStage (b : list rstmt)         (* if self.stage > 0: *)
+| RCallFailed                       (* self.broker.callFailed(f, self.reqID) *)
+| RReturnF.                         (* return f *)
+"""
+
+
+def renders_eagerly(e, names):
+    """does evaluating expression e format (%, str(), repr(), .format, f-string) something reachable from one of `names`?"""
+    for n in ast.walk(e):
+        fmt = (isinstance(n, ast.BinOp) and isinstance(n.op, ast.Mod)) or isinstance(n, ast.JoinedStr) or \
+              (isinstance(n, ast.Call) and ((isinstance(n.func, ast.Name) and n.func.id in ("str", "repr", "format")) or
+                                            (isinstance(n.func, ast.Attribute) and n.func.attr in ("format", "join"))))
+        if fmt and any(isinstance(x, ast.Name) and x.id in names for x in ast.walk(n)):
+            return True
+    return False
+
+
+def is_log(st):
+    return isinstance(st, ast.Expr) and isinstance(st.value, ast.Call) and U(st.value.func) in ("log.msg", "log.err", "twlog.msg", "twlog.err")
+
+
+def log_stmt(st, names, pre):
+    """a log.msg/log.err statement: rendering happens eagerly only in the positional arguments (failure=/level=/... keywords are
+    stored, not rendered: C18)"""
+    return pre + ("RenderLog" if any(renders_eagerly(a, names) for a in st.value.args) else "Log")
+
+
+def coq_prog(items):
+    return "[" + "; ".join(items) + "]"
+
+
+class _Subst(ast.NodeTransformer):
+    def __init__(self, alias):
+        self.alias = alias
+
+    def visit_Name(self, node):
+        if isinstance(node.ctx, ast.Load) and node.id in self.alias:
+            return copy.deepcopy(self.alias[node.id])
+        return node
+
+
+LOG_LOCAL_TESTS = ("self.tub and self.tub.logLocalFailures or not self.tub", "not self.tub or self.tub.logLocalFailures")
+
+
+def callfailed_stmts(stmts, alias=None):
+    """Accepted beyond the reference text (equivalent for all values):
+      * a local bound ONCE to `self.tub` or to `call.ErrorSlicer(reqID, f)` (attribute read / a constructor that only stores its
+        arguments after `assert isinstance(f, Failure)`) and used in place of that expression by the following statements of the same
+        block: the local is substituted back before matching;
+      * the logging test as `not T or T.logLocalFailures` instead of `(T and T.logLocalFailures) or not T`: as an `if` test both are
+        true exactly when T is falsy or T.logLocalFailures is truthy (T truthy: b / b; T falsy: True / True), evaluating T's truth and
+        the attribute at most once each without side effects."""
+    out = []
+    alias = dict(alias or {})
+    for st in stmts:
+        if isinstance(st, ast.Expr) and isinstance(st.value, ast.Constant):
+            continue
+        if isinstance(st, ast.Assign) and len(st.targets) == 1 and isinstance(st.targets[0], ast.Name) and \
+                U(st.value) in ("self.tub", "call.ErrorSlicer(reqID, f)") and st.targets[0].id not in alias and st.targets[0].id not in ("f", "reqID", "delivery", "self"):
+            alias[st.targets[0].id] = st.value
+            continue
+        st = ast.fix_missing_locations(_Subst(alias).visit(copy.deepcopy(st)))
+        t = U(st)
+        if isinstance(st, ast.If) and not st.orelse and U(st.test) == "delivery":
+            out.append("CIfDelivery " + coq_prog(callfailed_stmts(st.body, alias)))
+        elif isinstance(st, ast.If) and not st.orelse and U(st.test) in LOG_LOCAL_TESTS:
+            out.append("CIfLogLocal " + coq_prog(callfailed_stmts(st.body, alias)))
+        elif isinstance(st, ast.If) and not st.orelse and U(st.test) == "reqID != 0":
+            out.append("CIfReq " + coq_prog(callfailed_stmts(st.body, alias)))
+        elif t == "delivery.logFailure(f)":
+            out.append("CLogFailure")
+        elif t == "assert self.activeLocalCalls[reqID]":
+            out.append("CAssertActive")
+        elif t == "self.send(call.ErrorSlicer(reqID, f))":
+            out.append("CSendError")
+        elif t == "del self.activeLocalCalls[reqID]":
+            out.append("CDelActive")
+        elif is_log(st):
+            out.append(log_stmt(st, ("f", "delivery"), "C"))
+        else:
+            raise P.Untranslatable("Broker.callFailed: unexpected statement " + t[:100])
+    return out
+
+
+def callfinished_stmts(stmts, top=True):
+    out = []
+    for st in stmts:
+        if isinstance(st, ast.Expr) and isinstance(st.value, ast.Constant):
+            continue
+        t = U(st)
+        if t == "if reqID == 0:\n    return":
+            out.append("FIfOneWayReturn")
+        elif isinstance(st, ast.Assign) and len(st.targets) == 1 and isinstance(st.targets[0], ast.Name) and \
+                t in ("reqID = delivery.reqID", "methodSchema = delivery.methodSchema", "methodName = None", "methodName = methodSchema.name",
+                      "answer = call.AnswerSlicer(reqID, res, methodName)"):
+            out.append("FLocal")
+        elif t == "assert self.activeLocalCalls[reqID]":
+            out.append("FAssertActive")
+        elif isinstance(st, ast.If) and U(st.test) == "methodSchema" and all(U(x) == "methodName = None" for x in st.orelse):
+            # (an else branch that only binds the local methodName to None -- instead of binding it before the test -- has no effect
+            # the model sees)
+            out.append("FIfSchema " + coq_prog(callfinished_stmts(st.body, False)))
+        elif isinstance(st, ast.Try) and [U(x) for x in st.body] == ["methodSchema.checkResults(res, False)"]:
+            need(len(st.handlers) == 1 and U(st.handlers[0].type) == "Violation" and isinstance(st.handlers[0].body[-1], ast.Raise)
+                 and st.handlers[0].body[-1].exc is None and not st.orelse and not st.finalbody,
+                 "_callFinished: a result Violation is no longer re-raised")
+            out.append("FCheckResults")
+        elif t == "methodSchema.checkResults(res, False)":
+            out.append("FCheckResults")
+        elif isinstance(st, ast.Try) and [U(x) for x in st.body] == ["self.send(answer)"]:
+            need(len(st.handlers) == 1 and st.handlers[0].type is None and not st.orelse and not st.finalbody
+                 and not any(isinstance(x, (ast.Raise, ast.Return)) for h in st.handlers for x in ast.walk(h)),
+                 "_callFinished: the guard around self.send(answer) changed")
+            out.append("FSendAnswerGuarded")
+        elif t == "self.send(answer)":
+            out.append("FSendAnswer")
+        elif t == "del self.activeLocalCalls[reqID]":
+            out.append("FDelActive")
+        elif is_log(st):
+            out.append(log_stmt(st, ("res", "delivery"), "F"))
+        else:
+            raise P.Untranslatable("Broker._callFinished: unexpected statement " + t[:100])
+    return out
+
+
+def gen_callee():
+    br = P.load("broker.py")
+    cm = P.load("call.py")
+    out = [P.PRELUDE % dict(src="broker.py, call.py") + CALLEE_PRELUDE]
+    cf = P.find_def(br, "Broker.callFailed")
+    need([a.arg for a in cf.args.args] == ["self", "f", "reqID", "delivery"], "Broker.callFailed signature changed")
+    out.append("Definition callfailed_prog : list cstmt := %s." % coq_prog(callfailed_stmts(cf.body)))
+    fin = P.find_def(br, "Broker._callFinished")
+    need([a.arg for a in fin.args.args] == ["self", "res", "delivery"], "Broker._callFinished signature changed")
+    out.append("Definition callfinished_prog : list fstmt := %s." % coq_prog(callfinished_stmts(fin.body)))
+    # the chain of doNextCall (its pop / flag handling is matched in gen_send)
+    dn = P.find_def(br, "Broker.doNextCall")
+    links = []
+    known = {"_ready": "KReady", "lambda res: self._doCall(delivery)": "KDoCall", "self._callFinished": "KFinished",
+             "self.callFailed": "KFailed", "log.err": "KLogErr"}
+    for st in dn.body:
+        if isinstance(st, ast.Expr) and isinstance(st.value, ast.Call) and U(st.value.func) in ("d.addBoth", "d.addCallback", "d.addErrback"):
+            c = st.value
+            fn = U(c.args[0])
+            need(fn in known and not c.keywords, "doNextCall: unknown link " + U(c)[:100])
+            extra = [U(a) for a in c.args[1:]]
+            need(extra == {"KFinished": ["delivery"], "KFailed": ["delivery.reqID", "delivery"]}.get(known[fn], []),
+                 "doNextCall: arguments of the link changed: " + U(c)[:100])
+            links.append("%s %s" % ({"d.addBoth": "LBoth", "d.addCallback": "LCallback", "d.addErrback": "LErrback"}[U(c.func)], known[fn]))
+        elif isinstance(st, ast.Expr) and isinstance(st.value, ast.Call) and U(st.value.func).startswith("d.add"):
+            raise P.Untranslatable("doNextCall: unknown way of attaching to the chain: " + U(st)[:100])
+    out.append("Definition delivery_chain : list link := %s." % coq_prog(links))
+    # _doCall: what can raise before / in the method is one outcome of the model (d_raises); only its shape is checked
+    dc = U(P.find_def(br, "Broker._doCall"))
+    for frag in ("delivery.methodSchema.checkAllArgs(args, kwargs, True)", "return obj.doRemoteCall(delivery.methodname, args, kwargs)"):
+        need(frag in dc, "Broker._doCall no longer contains: " + frag)
+    # CallUnslicer: registers the request id when it arrives, answers a Violation that is not an ABORT once the id is known
+    rc = P.find_def(cm, "CallUnslicer.receiveChild")
+    st0 = [n for n in rc.body if isinstance(n, ast.If) and U(n.test) == "self.stage == 0"]
+    need(len(st0) == 1, "CallUnslicer.receiveChild: stage 0 branch not found")
+    b0 = [U(x) for x in st0[0].body]
+    need("self.reqID = token" in b0 and "self.stage = 1" in b0 and
+         "if self.reqID != 0:\n    assert self.reqID not in self.broker.activeLocalCalls\n    self.broker.activeLocalCalls[self.reqID] = self" in b0,
+         "CallUnslicer.receiveChild: registration of the request id changed: %s" % b0)
+    out.append("Definition registers_reqid : bool := true.   (* stage 0: activeLocalCalls[reqID] = self unless reqID == 0 *)")
+    rv = P.find_def(cm, "CallUnslicer.reportViolation")
+    rs = []
+    for st in rv.body:
+        if isinstance(st, ast.Expr) and isinstance(st.value, ast.Constant):
+            continue
+        t = U(st)
+        if t == "if f.value.args[0] == 'ABORT received':\n    return f":
+            rs.append("RIfAbortReturn")
+        elif isinstance(st, ast.If) and U(st.test) == "self.stage > 0" and not st.orelse and [U(x) for x in st.body] == ["self.broker.callFailed(f, self.reqID)"]:
+            rs.append("RIfStage [RCallFailed]")
+        elif t == "self.broker.callFailed(f, self.reqID)":
+            rs.append("RCallFailed")
+        elif t == "return f":
+            rs.append("RReturnF")
+        elif isinstance(st, ast.Return):
+            raise P.Untranslatable("CallUnslicer.reportViolation returns " + t)     # (absorbing is gen_send's pb_unslicers_propagate)
+        else:
+            raise P.Untranslatable("CallUnslicer.reportViolation: unexpected statement " + t[:100])
+    out.append("Definition report_violation_prog : list rstmt := %s." % coq_prog(rs))
+    # InboundDelivery.logFailure: does it format the target / the arguments (application objects) eagerly?
+    lf = P.find_def(cm, "InboundDelivery.logFailure")
+    eager = False
+    for st in ast.walk(lf):
+        if isinstance(st, ast.Call) and U(st.func) in ("log.msg", "log.err"):
+            for a in st.args:
+                for n in ast.walk(a):
+                    if isinstance(n, ast.BinOp) and isinstance(n.op, ast.Mod) or isinstance(n, ast.JoinedStr) or \
+                            (isinstance(n, ast.Call) and U(n.func) in ("str", "repr")):
+                        if any(U(x) in ("self.obj", "self.allargs.args", "self.allargs.kwargs", "self.allargs") for x in ast.walk(n)):
+                            eager = True
+    out.append("Definition logfailure_renders_delivery : bool := %s.   (* logFailure formats self.obj / self.allargs with %% *)"
+               % ("true" if eager else "false"))
+    return "\n\n".join(out) + "\n"
+
+
 def generate():
-    return {"FailureGen.v": gen_failure(), "SendGen.v": gen_send()}
+    return {"FailureGen.v": gen_failure(), "SendGen.v": gen_send(), "CalleeGen.v": gen_callee()}
